@@ -223,7 +223,7 @@ def conn_script(rng, c, attach, big=False, overflow=None):
         else:
             pk.append(sq.pop(0))
     end_c, end_s = streams[True][1], streams[False][1]
-    close = rng.choice(['fin', 'fin', 'rst_c', 'rst_s', 'open', 'fin_one'])
+    close = rng.choice(['fin', 'fin', 'rst_c', 'rst_s', 'open', 'fin_one', 'fin_rst', 'fin_rst'])
     if close == 'fin':
         first = rng.random() < 0.5
         pk += [mk(first, FIN | ACK, end_c if first else end_s, end_s if first else end_c),
@@ -236,6 +236,13 @@ def conn_script(rng, c, attach, big=False, overflow=None):
         pk.append(mk(False, RST | ACK, end_s, end_c))
     elif close == 'fin_one':
         pk.append(mk(True, FIN | ACK, end_c, end_s))
+    elif close == 'fin_rst':
+        # one side closes its direction and then aborts (RST) before the peer closes: the connection is over
+        who = rng.random() < 0.5
+        pk.append(mk(who, FIN | ACK, end_c if who else end_s, end_s if who else end_c))
+        if rng.random() < 0.5:
+            pk.append(mk(not who, ACK, end_s if who else end_c, (end_c if who else end_s) + 1))
+        pk.append(mk(who, RST, (end_c if who else end_s) + 1, 0))
     return pk
 
 
